@@ -1228,9 +1228,16 @@ def eval_datapath(item):
         "boxed": lambda v, p, q: U.DatBox(d=U.Dat(v=v, data=p)),
         "boxed-two-files": lambda v, p, q: U.DatBox(d=U.Dat(v=v, data=p), e=U.Dat(v=v + 10, data=q)),
         "boxed-one-file-twice": lambda v, p, q: U.DatBox(d=U.Dat(v=v, data=p), e=U.Dat(v=v + 10, data=p)),
+        # a list / a dictionary of configurations is saved (route save only: serialize is a method of one configuration)
+        "list-two-files": lambda v, p, q: [U.Dat(v=v, data=p), U.Dat(v=v + 10, data=q)],
+        "dict-two-files": lambda v, p, q: {"a": U.Dat(v=v, data=p), "b": U.Dat(v=v + 10, data=q)},
     }
 
     def read(obj, shape):
+        if shape.startswith("list"):
+            return [(x.v, Path(x.data).read_text()) for x in obj]
+        if shape.startswith("dict"):
+            return [(obj[k].v, Path(obj[k].data).read_text()) for k in sorted(obj)]
         if shape == "self":
             return [(obj.v, Path(obj.data).read_text())]
         return [(d.v, Path(d.data).read_text()) for d in (obj.d, obj.e) if d is not None]
@@ -1241,6 +1248,8 @@ def eval_datapath(item):
     }
     try:
         for (rname, (save, load)), (shape, mk) in itertools.product(routes.items(), shapes.items()):
+            if rname == "serialize" and shape.split("-")[0] in ("list", "dict"):
+                continue
             for history in ("fresh", "again-same", "again-other-content", "again-other-object"):
                 out["cases"] += 1
                 tag = f"{rname}-{shape}-{history}"
@@ -1272,6 +1281,47 @@ def eval_datapath(item):
                         out["problems"].append({"kind": "source-file-overwritten", "route": rname, "shape": shape, "history": history, "files": changed})
                 except Exception as e:  # noqa
                     out["problems"].append({"kind": "raises", "route": rname, "shape": shape, "history": history, "error": f"{type(e).__name__}: {e}"[:300]})
+        # sealed configurations (after instance(), or loaded) written several times: first without a directory (state dictionary),
+        # then into two different directories, and - for a box - the child alone before the whole
+        from experimaestro.core.context import SerializationContext
+        from experimaestro.xpmutils import DirectoryContext
+        for (rname, (save, load)), shape, how in itertools.product(routes.items(), ("self", "boxed", "boxed-two-files"), ("instance", "loaded")):
+            out["cases"] += 1
+            tag = f"sealed-{rname}-{shape}-{how}"
+            sources.clear()
+            try:
+                p, q = src(f"{tag}.bin", "first"), src(f"{tag}-q.bin", "first-q")
+                obj = shapes[shape](1, p, q)
+                want = read(obj, shape)
+                if how == "instance":
+                    obj.instance(DirectoryContext(base / f"{tag}-ctx"))
+                else:
+                    d0 = base / f"{tag}-d0"
+                    d0.mkdir()
+                    save(obj, d0)
+                    obj = load(d0)
+                    obj = obj[0] if isinstance(obj, tuple) else obj
+                ser.state_dict(SerializationContext(), obj)
+                if shape != "self":
+                    dc = base / f"{tag}-child"
+                    dc.mkdir()
+                    save(obj.d, dc)
+                for n in (1, 2):
+                    d = base / f"{tag}-d{n}"
+                    d.mkdir()
+                    save(obj, d)
+                    loaded = load(d)
+                    loaded = loaded[0] if isinstance(loaded, tuple) else loaded
+                    paths = [Path(x.data) for x in ([loaded] if shape == "self" else [loaded.d] + ([loaded.e] if loaded.e is not None else []))]
+                    outside = [str(x) for x in paths if d not in x.parents]
+                    if outside:
+                        out["problems"].append({"kind": "data-file-not-in-saved-directory", "route": rname, "shape": shape, "history": f"sealed:{how}:{n}", "paths": outside})
+                        continue
+                    got = read(loaded, shape)
+                    if got != want:
+                        out["problems"].append({"kind": "data-file-differs", "route": rname, "shape": shape, "history": f"sealed:{how}:{n}", "got": got, "want": want})
+            except Exception as e:  # noqa
+                out["problems"].append({"kind": "raises", "route": rname, "shape": shape, "history": f"sealed:{how}", "error": f"{type(e).__name__}: {e}"[:300]})
     finally:
         shutil.rmtree(base, ignore_errors=True)
     return out
